@@ -24,30 +24,32 @@ def run(ck):
     d.mkdir(parents=True, exist_ok=True)
     dist = {"runs": 0, "suboptimal_within_bound": 0, "capacity_bound_specs": 0, "max_ratio": 1.0}
     settings = [(0.01, 0.0), (0.1, 0.0), (0.5, 0.0), (0.1, 0.1), (0.5, 0.5), (0.0, 0.01), (0.0, 0.5), (0.01, 0.1)]
-    for i in range(ck.n(6, 60)):
+    for i in range(ck.n(8, 60)):
         spec, space = R.gen_search_spec(rng, max_space=ck.n(2500, 15000))
         for L in spec["levels"][1:]:
             if L["size"] is None and rng.random() < 0.6:
                 L["size"] = rng.choice([16, 32, 64])
         forced = []
-        if i % 2 == 1:
-            # tolerance-critical size: the unconstrained energy optimum needs between S and (1 + rt) x S bits of the first buffer
-            rt_c = rng.choice([0.1, 0.5])
+        if i % 4 != 0:
+            # tolerance-critical size: every energy-optimal mapping of the unconstrained spec needs between S and (1 + rt) x S bits of the first buffer
             saved = spec["levels"][1]["size"]
             spec["levels"][1]["size"] = None
             unc = R.reference(spec)
+            spec["levels"][1]["size"] = saved
             if unc:
-                m_u = min(unc, key=lambda x: x[1])[0]
-                u = S.usage_code(spec, m_u).get(1, 0)
-                s_c = -(-int(u * 1000) // int((1 + rt_c) * 1000))
-                if u > 0 and s_c < u:
+                eu = [(float(x[1]), S.usage_code(spec, x[0]).get(1, 0)) for x in unc]
+                opt_at = lambda cap: min((e for e, u in eu if u <= cap), default=None)  # noqa
+                cands = []
+                for rt_c in (0.1, 0.5):
+                    for u in sorted({u for _, u in eu if u > 0}):
+                        s_c = -(-int(u * 1000) // int((1 + rt_c) * 1000))
+                        if s_c < u and opt_at(s_c) is not None and opt_at(int((1 + rt_c) * s_c)) < opt_at(s_c):
+                            cands.append((rt_c, s_c))
+                if cands:
+                    rt_c, s_c = rng.choice(cands)
                     spec["levels"][1]["size"] = s_c
                     forced = [(0.0, rt_c)]
                     dist["tolerance_critical_specs"] = dist.get("tolerance_critical_specs", 0) + 1
-                else:
-                    spec["levels"][1]["size"] = saved
-            else:
-                spec["levels"][1]["size"] = saved
         ref = R.reference(spec)
         if not ref:
             continue
